@@ -69,4 +69,23 @@ inline Solution solve(const Problem& P) {
   S.kappa = la::cond_estimate(S.N, L);
   return S;
 }
+
+// The non-negative least-squares system that a monotonic fit hands to its solver, AS IMPLEMENTED: unknowns are the
+// increments t along dimension `mono` (c = T t, T lower-triangular ones along that dimension); data term T'FT, penalty of the
+// monotonic dimension T'P T, penalties of the other dimensions applied to t directly.  Returns (A, b) of  min 1/2 t'At - b't, t>=0.
+inline void tsum_rows(const Problem& P, size_t m, std::vector<ld>& v) {   // apply T' (suffix sums along dimension m)
+  size_t nd = P.ndim(); std::vector<uint64_t> st(nd); st[nd - 1] = 1; for (size_t d = nd - 1; d > 0; d--) st[d - 1] = st[d] * P.naxes(d);
+  uint64_t na = P.naxes(m), nc = P.ncoef();
+  for (uint64_t base = 0; base < nc; base++) { if ((base / st[m]) % na != 0) continue; for (uint64_t j = na - 1; j-- > 0;) v[base + j * st[m]] += v[base + (j + 1) * st[m]]; }
+}
+inline void mono_system(const Problem& P, const Solution& S, size_t mono, Mat& A, std::vector<ld>& b) {
+  uint64_t nc = P.ncoef(); A = Mat(nc, nc); b = S.rhs; tsum_rows(P, mono, b);
+  Mat M(nc, nc);   // F + lambda_m P_m in coefficient coordinates
+  for (uint64_t i = 0; i < nc; i++) for (uint64_t j = 0; j < nc; j++) M(i, j) = S.Ndata(i, j) + (S.pen[mono].n ? (ld)P.smooth[mono] * S.pen[mono](i, j) : 0);
+  // T' M T: suffix sums over rows, then over columns
+  std::vector<ld> col(nc);
+  for (uint64_t j = 0; j < nc; j++) { for (uint64_t i = 0; i < nc; i++) col[i] = M(i, j); tsum_rows(P, mono, col); for (uint64_t i = 0; i < nc; i++) M(i, j) = col[i]; }
+  for (uint64_t i = 0; i < nc; i++) { for (uint64_t j = 0; j < nc; j++) col[j] = M(i, j); tsum_rows(P, mono, col); for (uint64_t j = 0; j < nc; j++) A(i, j) = col[j]; }
+  for (size_t d = 0; d < P.ndim(); d++) if (d != mono && S.pen[d].n) for (uint64_t i = 0; i < nc; i++) for (uint64_t j = 0; j < nc; j++) A(i, j) += (ld)P.smooth[d] * S.pen[d](i, j);
+}
 }  // namespace fitref
